@@ -78,6 +78,15 @@ def invariants(tree, spec, base_total, base_calls, objs, prev_best):
 
 
 def _work(seed):
+    try:
+        with common.time_limit(2 * common.RUN_LIMIT):
+            return _work_inner(seed)
+    except common.RunTimeout as ex:
+        return {"seed": seed, "spec": None, "viol": [], "boundaries": 0, "resumed_steps": 0, "engines": [], "hib_at_dump": 0, "demes_at_dump": 0,
+                "continuation_identical": None, "error": str(ex)}
+
+
+def _work_inner(seed):
     import sys
     import warnings
     sys.path.insert(0, common.VERIF)
@@ -87,6 +96,8 @@ def _work(seed):
     from hv import gen
     rng = random.Random(seed)
     force = {"cap_evals": 1200, "wrappers": rng.choice(["none", "counting", "none"])}
+    if rng.random() < 0.15:
+        force.update(objective_kind="nanhole", box=[[-5.0, 5.0], [-5.0, 5.0]], dim=2)
     spec = gen.gen_spec(seed, **force)
     if rng.random() < 0.5 and not any(l["engine"] == "SEAWithAdaptiveMutation" for l in spec["levels"]):
         spec["hibernation"] = True
@@ -111,7 +122,9 @@ def _work(seed):
             stop = bool(tree._gsc(tree))
             if steps >= target or stop:
                 # ---- dump / load at this boundary
-                d0, r0, s0 = deep(tree), rng_state(), tree.summary()
+                has_nan = spec["objective"]["kind"] == "nanhole"
+                s0 = None if has_nan else tree.summary()
+                d0, r0 = deep(tree), rng_state()
                 calls0 = sum(o.n for o in objs)
                 tree.pickle_dump(path)
                 d1, r1 = deep(tree), rng_state()
@@ -130,7 +143,7 @@ def _work(seed):
                     j = next((k for k, (a, b) in enumerate(zip(dl[1], d0[1])) if a != b), None)
                     what = "metaepoch counter" if dl[0] != d0[0] else (f"deme {d0[1][j][1]}: " + ", ".join(n for n, a, b in zip(("level", "id", "class", "started_at", "active", "hibernating", "evaluations", "children", "seed", "history"), dl[1][j], d0[1][j]) if a != b) if j is not None else "number of demes")
                     viol.append(("C19/roundtrip", f"the loaded tree differs from the original at metaepoch {tree.metaepoch_count}: {what}"))
-                if loaded.summary() != s0:
+                if s0 is not None and loaded.summary() != s0:
                     viol.append(("C19/roundtrip-summary", "summary() of the loaded tree differs from the original's"))
                 if bool(loaded._gsc(loaded)) != stop:
                     viol.append(("C19/roundtrip-gsc", "the stop-condition verdict of the loaded tree differs from the original's"))
@@ -140,7 +153,7 @@ def _work(seed):
                 break
             tree.run_step()
             steps += 1
-        if loaded is not None and not viol:
+        if loaded is not None and not viol and spec["objective"]["kind"] != "nanhole":
             # ---- run the loaded tree on, checking the invariants; then the live one from the same RNG state, and compare
             lobjs = []
             for lv in loaded.config.levels:
